@@ -768,6 +768,18 @@ func c08engAnswer(in *eng.Inst, q *eng.Req, a c08ans) {
 	}
 }
 
+func c08plan(h []c08ans) string {
+	var p []string
+	for _, a := range h {
+		if a.ok {
+			p = append(p, "ok")
+		} else {
+			p = append(p, fmt.Sprintf("e%d:%d", a.mode, a.retries))
+		}
+	}
+	return c08names(p)
+}
+
 func c08engRun(out *rec.Out, c c08engCase, stats map[string]int) {
 	xmlText, rpn := c08engXML(c.td)
 	out.Begin("c08eng", c.tag)
@@ -786,6 +798,30 @@ func c08engRun(out *rec.Out, c c08engCase, stats map[string]int) {
 		out.Line("prog %s", l)
 	}
 	out.Line("prog vars %s", fmtVars(varsInt))
+	// declarations as the PARSED definitions carry them
+	for _, fe := range (*defs.Processes())[0].FlowElements() {
+		be, ok := fe.(schema.BaseElementInterface)
+		if !ok {
+			continue
+		}
+		ext, found := be.ExtensionElements()
+		if !found || ext == nil {
+			continue
+		}
+		var rs, os []string
+		if ext.ResultsField != nil {
+			for _, f := range ext.ResultsField.Field {
+				rs = append(rs, f.Name)
+			}
+		}
+		for _, o := range ext.DataOutput {
+			os = append(os, o.Name)
+		}
+		if id, ok := be.Id(); ok {
+			out.Line("c08 decl %s results=%s outputs=%s", *id, c08names(rs), c08names(os))
+		}
+	}
+	out.Line("c08 plan T %s", c08plan(c.hist))
 	stats["cases"]++
 	stats["tag_"+c.tag]++
 	nT, nDown := 0, 0
@@ -811,6 +847,9 @@ func c08engRun(out *rec.Out, c c08engCase, stats map[string]int) {
 			// what a later task sees of the results and data outputs of T
 			in.Note("c08 seen %s %d props=%s objs=%s", q.Node, q.Occ, c08itemsText(q.Trace.GetProperties()),
 				c08itemsText(q.Trace.GetDataObjects()))
+			if nDown == 0 && len(c.down) > 0 {
+				in.Note("c08 plan %s %s", q.Node, c08plan(c.down))
+			}
 			if nDown < len(c.down) {
 				a = c.down[nDown]
 			}
